@@ -245,6 +245,7 @@ def _detect_alleles_match(variant, entry, bam_read, ref_pos, query_pos, length):
                     a.quality += 30  # TODO
                 a.matched += 1
                 a.progress += 1
+                query_pos += 1
             else:
                 break
 
